@@ -126,20 +126,26 @@ def pScanLoc : P (Bool × Bool × Int) := do
             bs.foldl (fun acc b => acc + (b.2 - b.1)) 0)
   | .empty => pure (true, false, 0)
 
-def gridVerdict : P String := do
-  let _ ← tok; let _ ← tok; let _ ← tok; let _ ← tok
+/-- `mustBuild`: the arguments of this grid point are valid (the uncorrupted base, or a perturbation the documentation
+    explicitly allows: kinds ending in `_ok`), so only `ok wf` is acceptable -/
+def gridVerdict (isCtor : Bool) : P String := do
+  let _ ← tok; let _ ← tok; let _ ← tok
+  let kind ← tok
+  let mustBuild := isCtor && (kind == "none" || kind.endsWith "_ok")
   pArrow
   let a ← pRest
   match a with
   | ["ok", "wf"] => pure "pass"
   | "ok" :: "illformed" :: why => pure ("fail illformed " ++ " ".intercalate why)
-  | ["err", c] => pure (if documented.contains c then "pass" else s!"fail undocumented {c}")
+  | ["err", c] =>
+      pure (if !documented.contains c then s!"fail undocumented {c}"
+            else if mustBuild then s!"fail refused-valid {c}" else "pass")
   | "err!" :: c => pure ("fail internal " ++ " ".intercalate c)
   | _ => throw "answer?"
 
 def ops : List (String × Op) := [
-  ("ctor", gridVerdict),
-  ("call", gridVerdict),
+  ("ctor", gridVerdict true),
+  ("call", gridVerdict false),
   ("mksingle", do
       let s ← pInt; let e ← pInt; let st ← pStrand; let n ← optOf natOf; pArrow
       let o ← pOut (do
